@@ -79,6 +79,55 @@ func stepOnW(mem *mon.Mem, io *mon.IO, pre z80.States, bytes []uint8, ioSeed uin
 	return cpu.States, cpu.HALT, pan, touched
 }
 
+// cowMem is a copy-on-write view of a frozen image: the first write makes a private
+// copy, attaches THAT to the CPU (from inside Set, as a snapshotting host does) and
+// lands there; the frozen object must not be written again.
+type cowMem struct {
+	base   *mon.Mem
+	over   map[uint16]uint8
+	cpu    *z80.CPU
+	frozen bool
+	child  *cowMem
+	stale  int // writes that still arrived at the frozen object after the switch
+}
+
+func (m *cowMem) Get(a uint16) uint8 {
+	if v, ok := m.over[a]; ok {
+		return v
+	}
+	return m.base.Data[a]
+}
+
+func (m *cowMem) Set(a uint16, v uint8) {
+	if m.frozen {
+		if m.child == nil {
+			m.child = &cowMem{base: m.base, over: map[uint16]uint8{}, cpu: m.cpu}
+			m.cpu.Memory = m.child
+		} else {
+			m.stale++
+		}
+		m.child.over[a] = v
+		return
+	}
+	m.over[a] = v
+}
+
+// stepCOW runs one Step on a frozen copy-on-write image of mem (which already holds the
+// instruction bytes) and returns the post-state and where the writes went.
+func stepCOW(mem *mon.Mem, pre z80.States, ioSeed uint64) (post z80.States, over map[uint16]uint8, stale int, pan interface{}) {
+	cpu := &z80.CPU{States: pre, IO: &mon.IO{Seed: ioSeed}}
+	root := &cowMem{base: mem, cpu: cpu, frozen: true}
+	cpu.Memory = root
+	func() {
+		defer func() { pan = recover() }()
+		cpu.Step()
+	}()
+	if root.child != nil {
+		over = root.child.over
+	}
+	return cpu.States, over, root.stale, pan
+}
+
 func memImagesEqual(a, b *mon.Mem, except uint16, hasExcept bool) bool {
 	for _, ad := range a.Dirty(0) {
 		if hasExcept && ad == except {
@@ -104,7 +153,7 @@ func runC11(c *Ctx) {
 	mon.DiscardStdLog()
 	n := c.Pick(1000, 100000)
 	var mu sync.Mutex
-	var evals, nontriv, touching, nonInterf, aliased, directPairs, im0Pairs int64
+	var evals, nontriv, touching, nonInterf, aliased, directPairs, im0Pairs, cowPairs int64
 	distinct := mon.NewDistinct(4_000_000)
 
 	// warning parity (single-threaded log monitor)
@@ -137,7 +186,7 @@ func runC11(c *Ctx) {
 		g := &pairRig{}
 		r := mon.NewRng(mon.Hash(uint64(c.Seed), uint64(si), 0xC11))
 		g.refill(r.U64())
-		var lev, lnt, ltouch, lni, lalias, ldirect, lim0 int64
+		var lev, lnt, ltouch, lni, lalias, ldirect, lim0, lcow int64
 		var dmem z80.DumbMemory
 		for k := 0; k < n; k++ {
 			if k&1023 == 1023 {
@@ -354,6 +403,33 @@ func runC11(c *Ctx) {
 					}
 				}
 			}
+			// another 8th on a frozen copy-on-write image: the first write of the Step makes
+			// the host attach a private copy to CPU.Memory from inside Set; every later write
+			// of the same instruction must land in the copy, for both forms alike
+			if bad == "" && panD == nil && k%8 == 3 {
+				g.memA.Reset()
+				g.memA.Place(pre.PC, dd...)
+				pD, oD, sD, xD := stepCOW(&g.memA, pre, ioSeed)
+				g.memB.Reset()
+				g.memB.Place(pre.PC, fd...)
+				pF, oF, sF, xF := stepCOW(&g.memB, swapIdx(pre), ioSeed)
+				lcow++
+				switch {
+				case (xD == nil) != (xF == nil):
+					bad = "only one form panics on a copy-on-write memory"
+				case xD != nil:
+				case swapIdx(pF) != pD:
+					bad = "post-states differ after un-mirroring on a copy-on-write memory"
+				case sD != sF || len(oD) != len(oF):
+					bad = fmt.Sprintf("on a copy-on-write memory (the host attaches a private copy to CPU.Memory during the first write) the DD form sent %d later write(s) to the frozen object and the FD form %d", sD, sF)
+				default:
+					for a, v := range oD {
+						if oF[a] != v {
+							bad = "written images differ on a copy-on-write memory"
+						}
+					}
+				}
+			}
 			if postD != pre || len(logD) > 2 {
 				lnt++
 				if k < 2048 || k%5 == 0 {
@@ -387,6 +463,7 @@ func runC11(c *Ctx) {
 		aliased += lalias
 		directPairs += ldirect
 		im0Pairs += lim0
+		cowPairs += lcow
 		mu.Unlock()
 	})
 	c.R.Set("evaluations", evals)
@@ -396,6 +473,7 @@ func runC11(c *Ctx) {
 	c.R.Set("non_interference_reruns", nonInterf)
 	c.R.Set("pairs_also_on_DumbMemory_directly", directPairs)
 	c.R.Set("pairs_also_supplied_by_a_mode0_device", im0Pairs)
+	c.R.Set("pairs_also_on_a_copy_on_write_memory", cowPairs)
 	c.R.Set("skipped_operand_aliases_prefix_byte", aliased)
 	c.R.Set("pairs_using_index_register", touching)
 	c.R.Set("second_bytes_covered", int64(255))
@@ -403,6 +481,6 @@ func runC11(c *Ctx) {
 	c.R.Set("states_per_byte", int64(n))
 	c.R.Set("exhaustive", false)
 	c.R.Set("exhaustive_over", "all 255 second bytes after DD/FD (CB handled via the 256 fourth bytes of DDCB/FDCB); pre-states sampled")
-	c.R.Set("rule", "for every second byte after DD/FD and every fourth byte after DDCB/FDCB (in scope or not), n boundary-biased states S with all 256 F and displacements cycled: Step the DD form from S and the FD form from swap(S) on identical memories/devices; swap(post_FD) must equal post_DD, HALT equal, memory access sequence equal address-for-address and value-for-value except the prefix byte's own value, port sequence equal, written images equal; then re-run each form with the other index register perturbed: nothing but that register may differ and it must stay unchanged; 'invalid code' warnings must agree pairwise; every 8th pair is repeated on a 64 KiB z80.DumbMemory handed to the CPU directly, another 8th with both forms supplied by a mode-0 interrupting device (whole post-state incl. R, access sequences, images); a bus hook checks at every memory access of the Step that the other index register still holds its value. Non-trivial = the Step changed a register other than none (post != pre) or made a data access; distinct = distinct (byte, d, case, IX, IY) hashes (first 2048 per byte then 1/5 sampled: a lower bound)")
+	c.R.Set("rule", "for every second byte after DD/FD and every fourth byte after DDCB/FDCB (in scope or not), n boundary-biased states S with all 256 F and displacements cycled: Step the DD form from S and the FD form from swap(S) on identical memories/devices; swap(post_FD) must equal post_DD, HALT equal, memory access sequence equal address-for-address and value-for-value except the prefix byte's own value, port sequence equal, written images equal; then re-run each form with the other index register perturbed: nothing but that register may differ and it must stay unchanged; 'invalid code' warnings must agree pairwise; every 8th pair is repeated on a 64 KiB z80.DumbMemory handed to the CPU directly, another 8th with both forms supplied by a mode-0 interrupting device (whole post-state incl. R, access sequences, images), another 8th on a copy-on-write image whose first write attaches a private copy to CPU.Memory from inside Set (post-states, where the writes went); a bus hook checks at every memory access of the Step that the other index register still holds its value. Non-trivial = the Step changed a register other than none (post != pre) or made a data access; distinct = distinct (byte, d, case, IX, IY) hashes (first 2048 per byte then 1/5 sampled: a lower bound)")
 	c.R.Assume("no reference model involved: a defect that is mirrored identically in both tables is C01's business")
 }
